@@ -4,7 +4,8 @@ From CM Require Import Generated.Tables.
 
 Definition the_validators : validators := {| v_line := report_line_validator; v_desc := report_desc_validator |}.
 Definition the_tables : tables :=
-  {| t_libcst := report_libcst_apply; t_xml := report_xml_apply; t_fail := report_failure; t_val := the_validators |}.
+  {| t_libcst := report_libcst_apply; t_xml := report_xml_apply; t_regex := report_regex_apply; t_fail := report_failure;
+     t_val := the_validators |}.
 Definition the_rtables : rtables :=
   {| t_pipe := the_tables; t_apply := report_apply_codemods; t_compile := report_compile; t_update := report_update_meta;
      t_build := report_build |}.
